@@ -528,7 +528,28 @@ fn main() {
         let only_history = out.want.len() == 1 && out.wants("C14");
         let mut n_builds = 0usize;
         if !only_history {
-            for c in &singles { check_case(c, &mut out); n_builds += 1; }
+            for c in &singles {
+                let q = check_case(c, &mut out);
+                n_builds += 1;
+                // C08 on single cases too: the same payload with the next mask must differ exactly as Table 10 says
+                if let (Some(q), Some(m), true) = (q, c.mask, out.wants("C08")) {
+                    let mut c2 = c.clone(); c2.mask = Some((m + 1) % 8);
+                    if let Built::Ok(q2) = build(&c2) {
+                        n_builds += 1;
+                        let v = q.version.unwrap() as usize; let n = side(v);
+                        if q2.version.map(|x| x as usize) == Some(v) {
+                            let mut bad = None;
+                            for y in 0..n { for x in 0..n {
+                                let r = region(v, y, x);
+                                let differs = val(&q, y, x) != val(&q2, y, x);
+                                let expect = match r { Region::Data => mask_bit(m, y, x) != mask_bit((m + 1) % 8, y, x), Region::Format => differs, _ => false };
+                                if (differs != expect || ty(&q, y, x) != ty(&q2, y, x)) && bad.is_none() { bad = Some((y, x, r)); }
+                            } }
+                            if let Some((y, x, r)) = bad { out.fail("C08", "mask_pair_difference", c, format!("masks {} and {} : module ({},{}) region {:?} does not differ as Table 10 prescribes", m, (m + 1) % 8, y, x, r)); }
+                        }
+                    }
+                }
+            }
             let group_props = ["C08", "C11", "C01", "C02", "C03", "C04", "C06", "C07", "C15", "C10"];
             if group_props.iter().any(|p| out.wants(p)) { for g in &groups { check_group(g, &mut out); n_builds += 9; } }
         }
